@@ -72,7 +72,20 @@ type runOut struct {
 	newErr, runErr error
 	d              *faultdb.DB
 	arrivals       int
+	btArrivals     int             // ... of which ingest ranges of blocktransactions
+	hdr            map[uint64]bool // blocks whose header was read through the store (= blocks an ingest worker visited)
+	getsAt         map[int]int     // point reads issued when the k-th commit completed
 	deadlock       bool
+}
+
+// ingestedAll: the run was seen to visit every block of [start, tip].
+func (o *runOut) ingestedAll(start, n int) bool {
+	for b := start; b < n; b++ {
+		if !o.hdr[uint64(b)] {
+			return false
+		}
+	}
+	return start < n
 }
 
 func isRangeStartHeader(key []byte) (uint64, bool) {
@@ -99,13 +112,25 @@ func execRun(t *testing.T, img *memory.Database, cfg startCfg, perm [4]int, in i
 		defer cancel()
 		var mu sync.Mutex
 		parked := map[uint64]chan struct{}{}
+		out.hdr, out.getsAt = map[uint64]bool{}, map[int]int{}
 		d.OnRead(func(op string, key []byte) {
 			if op != "get" {
 				return
 			}
+			if len(key) == 9 && key[0] == byte(db.BlockHeadersByNumber) {
+				mu.Lock()
+				out.hdr[binary.BigEndian.Uint64(key[1:])] = true
+				mu.Unlock()
+			}
+			// an ingest worker of blocktransactions parks at the first header of its range, identified by the range index:
+			// with <= 4 ranges in a pass every range has its own worker; on longer chains a released worker ingests its
+			// range, takes the next one from the source and parks again, so the release policy also decides which ranges end
+			// up together in one worker's batch
 			id, ok := isRangeStartHeader(key)
 			if ok {
-				id %= 4 // ranges of one pass are consecutive, so r%4 identifies them (<= 4 per pass here)
+				mu.Lock()
+				out.btArrivals++
+				mu.Unlock()
 			} else if len(key) == 9 && key[0] == byte(db.StateUpdatesByBlockNumber) {
 				// a statedifflength worker, or a stager / restorer worker of the history-prune migration, reading the
 				// state update of its block: parked too, so that the assignment of blocks to the per-worker batches
@@ -125,13 +150,16 @@ func execRun(t *testing.T, img *memory.Database, cfg startCfg, perm [4]int, in i
 			mu.Unlock()
 			<-ch
 		})
+		d.OnCommit(func(c faultdb.Commit) {
+			g := d.Gets()
+			mu.Lock()
+			out.getsAt[c.N] = g
+			mu.Unlock()
+			if in.Kind == inCancelCommit && c.N == in.K {
+				cancel()
+			}
+		})
 		switch in.Kind {
-		case inCancelCommit:
-			d.OnCommit(func(c faultdb.Commit) {
-				if c.N == in.K {
-					cancel()
-				}
-			})
 		case inFail:
 			d.FailAt(in.K, nil)
 		case inFailRead:
@@ -158,8 +186,8 @@ func execRun(t *testing.T, img *memory.Database, cfg startCfg, perm [4]int, in i
 			for id := range parked {
 				rank := 0
 				switch {
-				case id < 1000:
-					rank = perm[id]
+				case id < 1000: // ranges r, r+4, r+8.. share a priority class, the lower one first (<= 4 ranges: the order IS perm)
+					rank = perm[id%4]*100 + int(id)
 				case perm[0] < perm[3]: // statedifflength blocks: lowest parked block first ...
 					rank = int(id)
 				default: // ... or highest first
@@ -212,9 +240,10 @@ func perms4() [][4]int {
 type shapeSpec struct {
 	Name   string
 	Shape  []int
-	PruneR int // >= 0: the --prune-mode flag is toggled between process starts, retaining PruneR blocks; -1: never enabled
-	Pruned int // blocks below are absent (statedifflength's pruned prefix); blocktransactions part is then already migrated
-	L1Lag  int // the recorded L1 head lags the tip by this many blocks (the prune pivot is min(L1 head, height))
+	PruneR int  // >= 0: the --prune-mode flag is toggled between process starts, retaining PruneR blocks; -1: never enabled
+	Pruned int  // blocks below are absent (statedifflength's pruned prefix); blocktransactions part is then already migrated
+	BTOnly bool // interruption points are enumerated in the blocktransactions phase only (quiet chains)
+	L1Lag  int  // the recorded L1 head lags the tip by this many blocks (the prune pivot is min(L1 head, height))
 }
 
 func mkShape(n int, pat string) []int {
@@ -233,6 +262,20 @@ func mkShape(n int, pat string) []int {
 			if i > 0 {
 				s[i] = 1 + i%2
 			}
+		case "quiet": // non-empty first block, transactions in the first range only: every range above it is all-empty
+			if i < 10 {
+				s[i] = (i + 1) % 3
+			}
+		case "quiet-mid": // quiet, plus one busy block in a middle range (a second, later start range for a resumed run)
+			if i < 10 {
+				s[i] = (i + 1) % 3
+			} else if i == (n/20)*10+5 {
+				s[i] = 2
+			}
+		case "tail-empty": // busy up to the last range, which holds empty blocks only (quiet period at the chain head)
+			if i < 10*((n-1)/10) {
+				s[i] = 1 + i%2
+			}
 		}
 	}
 	return s
@@ -243,6 +286,7 @@ type imgState struct {
 	depth int    // interruptions so far
 	trace string // how it was reached
 	taint bool   // reached through the half-pruned no-op-prune case already reported under its own key
+	floor int    // lowest block some run of the history was obliged to have ingested (visit_test.go); len(shape) = none
 }
 
 type bCtx struct {
@@ -325,7 +369,7 @@ func expectedClass(sp shapeSpec, from pruneInfo, cfg startCfg) string {
 }
 
 // checkImage: invariants that must hold in EVERY durable image (crash images included).
-func (bc *bCtx) checkImage(sp shapeSpec, c *chain, img *memory.Database, trace string) {
+func (bc *bCtx) checkImage(sp shapeSpec, c *chain, img *memory.Database, trace string, floor int) {
 	md, err := migration.GetSchemaMetadata(img)
 	applied0 := err == nil && md.CurrentVersion.Has(0)
 	applied3 := err == nil && md.CurrentVersion.Has(3)
@@ -338,7 +382,9 @@ func (bc *bCtx) checkImage(sp shapeSpec, c *chain, img *memory.Database, trace s
 		bc.r.Violate("b/applied-bit-with-old-layout-data blocktransactions", map[string]any{"shape": sp.Name, "trace": trace})
 	}
 	if applied0 {
-		if msg := c.checkContentOpt(img, lower, false, relax); msg != "" {
+		exc, unexc := c.missingEmpty(img, lower, floor)
+		skip := bc.reportMissing("applied-bit-but-content-wrong blocktransactions", sp, trace, exc, unexc, floor)
+		if msg := c.checkContentSkip(img, lower, false, relax, skip); msg != "" {
 			bc.contentViolation("applied-bit-but-content-wrong blocktransactions", sp, c, trace, msg)
 		}
 	}
@@ -373,7 +419,9 @@ func (bc *bCtx) contentViolation(inv string, sp shapeSpec, c *chain, trace, msg 
 	case cls == "migrated block rewritten without its transactions":
 		key = "b/data-loss: already-migrated block rewritten as empty on restart (ranges committed out of order, then crash or failed commit)"
 	case cls == "block has no combined entry" && b < len(c.shape) && c.shape[b] == 0:
-		key = "b/unreadable: empty block below the first migrated range gets no combined entry"
+		// empty blocks without an entry are classified by reportMissing (never visited / lost in a pass) before the
+		// content check and skipped by it; one that still arrives here was seen by an invariant that has no history
+		key = "b/" + inv + ": empty block has no combined entry"
 	}
 	bc.r.Violate(key, map[string]any{"shape": sp.Name, "tx_per_block": sp.Shape, "trace": trace, "first_discrepancy": msg, "invariant": inv})
 }
@@ -400,12 +448,19 @@ func indexOf(s, sub string) int {
 	return -1
 }
 
+// stateID: the durable image plus the first block the history obliges and the image lacks (len(shape) when there is
+// none: always, on the unchanged tree), see firstUnexcused.
+type stateID struct {
+	h [32]byte
+	u int
+}
+
 type bShape struct {
 	r        *ev.Run
 	sp       shapeSpec
 	c        *chain
 	mu       sync.Mutex
-	seen     map[[32]byte]uint8 // bit 0: seen untainted, bit 1: seen tainted
+	seen     map[stateID]uint8 // bit 0: seen untainted, bit 1: seen tainted
 	next     []imgState
 	refFinal map[string][32]byte // one final image per chain and per prune class
 	stripped map[string][32]byte // the same without the schema-metadata key (no-op prune == no prune modulo metadata)
@@ -441,11 +496,16 @@ func memGuard(r *ev.Run) bool {
 	return false
 }
 
-func (sh *bShape) add(img *memory.Database, depth int, trace string, taint bool) {
+func (sh *bShape) add(img *memory.Database, depth int, trace string, taint bool, floor int) {
 	if memGuard(sh.r) {
 		return
 	}
-	h := faultdb.Hash(img)
+	lower := sh.sp.Pruned
+	if sh.sp.PruneR >= 0 && floor < len(sh.sp.Shape) { // blocks the history-prune migration deleted are not "missing"
+		md, _ := migration.GetSchemaMetadata(img)
+		lower = pruneState(sh.sp, img, md).lower
+	}
+	h := stateID{faultdb.Hash(img), sh.c.firstUnexcused(img, lower, floor)}
 	sh.mu.Lock()
 	defer sh.mu.Unlock()
 	bit := uint8(1)
@@ -456,7 +516,7 @@ func (sh *bShape) add(img *memory.Database, depth int, trace string, taint bool)
 		return
 	}
 	sh.seen[h] |= bit
-	sh.next = append(sh.next, imgState{img: img, depth: depth, trace: trace, taint: taint})
+	sh.next = append(sh.next, imgState{img: img, depth: depth, trace: trace, taint: taint, floor: floor})
 }
 
 type bItem struct {
@@ -488,7 +548,7 @@ func exploreShapeGroup(bc *bCtx, specs []shapeSpec, permsL0, permsDeep [][4]int,
 	for _, sp := range specs {
 		ch := mkChain(sp.Shape)
 		ch.l1lag = sp.L1Lag
-		sh := &bShape{r: r, sp: sp, c: ch, seen: map[[32]byte]uint8{}, refFinal: map[string][32]byte{}, stripped: map[string][32]byte{}}
+		sh := &bShape{r: r, sp: sp, c: ch, seen: map[stateID]uint8{}, refFinal: map[string][32]byte{}, stripped: map[string][32]byte{}}
 		base := sh.c.oldLayoutDB(0)
 		if sp.Pruned > 0 {
 			// A pruned database cannot be in the per-transaction layout (pruning came later). Build it from the
@@ -515,7 +575,7 @@ func exploreShapeGroup(bc *bCtx, specs []shapeSpec, permsL0, permsDeep [][4]int,
 			}
 			must(migration.WriteSchemaMetadata(base, migration.SchemaMetadata{CurrentVersion: 0b0001, LastTargetVersion: 0b1001}))
 		}
-		sh.add(base, 0, "old-layout", false)
+		sh.add(base, 0, "old-layout", false, len(sp.Shape))
 		shapes = append(shapes, sh)
 	}
 	for depth := 0; ; depth++ {
@@ -563,10 +623,12 @@ func exploreItem(bc *bCtx, it bItem, maxDepth int, failInj bool) {
 	r, t := bc.r, bc.t
 	sh, st, pm, sp, c, cfg := it.sh, it.st, it.pm, it.sh.sp, it.sh.c, it.cfg
 	if it.first && !st.taint {
-		bc.checkImage(sp, c, st.img, st.trace)
+		bc.checkImage(sp, c, st.img, st.trace, st.floor)
 	}
 	md0, _ := migration.GetSchemaMetadata(st.img)
 	from := pruneState(sp, st.img, md0)
+	// what this process start has to visit: everything from the range of the first block that still has legacy entries
+	start, fromApplied := c.legacyStart(st.img), md0.CurrentVersion.Has(0)
 	// The one prune-related defect class of the unchanged tree that a raised retained value exposes: after an ABRUPT
 	// interruption (no token persisted) of a started prune, a start whose window exceeds the chain is a no-op that sets
 	// the applied bit on the half-pruned database. It is reported once under its own key; the images behind it are
@@ -643,8 +705,24 @@ func exploreItem(bc *bCtx, it bItem, maxDepth int, failInj bool) {
 		lower = max(lower, sp.cutoff())
 	}
 	msg := ""
+	missing := false
 	if !taint {
-		msg = c.checkContent(fin, lower, true)
+		// the run returned nil: the migration is recorded as applied, its pass over [start, tip] is finished
+		floorFin := floorAfter(st.floor, start, fromApplied, fin, false)
+		exc, unexc := c.missingEmpty(fin, lower, floorFin)
+		const inv = "final-content-differs-from-original (core.Get* accessors after a Run that returned nil)"
+		skip := bc.reportMissing(inv, sp, tr, exc, unexc, floorFin)
+		if len(exc) > 0 {
+			r.Outcome("b: final content wrong (empty block no run had to visit has no combined entry)")
+		}
+		if len(unexc) > 0 {
+			r.Outcome("b: final content wrong (empty block of a range the run had to ingest has no combined entry)")
+		}
+		missing = len(skip) > 0
+		msg = c.checkContentSkip(fin, lower, true, false, skip)
+		if msg == "" && missing {
+			msg = c.checkSDL(fin, lower) // the skipped blocks' commitments are judged all the same
+		}
 	}
 	if msg == "" && wantCls == clsPruned && !taint {
 		if pm := c.checkPruned(fin, sp.cutoff()); pm != "" {
@@ -654,7 +732,7 @@ func exploreItem(bc *bCtx, it bItem, maxDepth int, failInj bool) {
 	if msg != "" {
 		r.Outcome("b: final content wrong (" + classify(msg) + ")")
 		bc.contentViolation("final-content-differs-from-original (core.Get* accessors after a Run that returned nil)", sp, c, tr, msg)
-	} else {
+	} else if !missing { // a final image that lacks entries is not THE final image: reported above, not compared
 		if taint {
 			r.Outcome("b: completed on a tainted (already reported) database")
 			goto afterFinal
@@ -692,27 +770,44 @@ afterFinal:
 	if st.depth >= maxDepth {
 		return
 	}
+	// BTOnly chains: the interruption points of the blocktransactions phase only = up to and including the commit that
+	// records it as applied (the later phases are enumerated on the other chains of <= 36 blocks)
+	nCommit, nArrive, nGets := n, o.arrivals, o.d.Gets()
+	if sp.BTOnly {
+		nCommit = 0
+		for k := 1; k <= n && !fromApplied; k++ {
+			if nCommit = k; btApplied(o.d.Image(k)) {
+				break
+			}
+		}
+		nArrive, nGets = min(nArrive, o.btArrivals), o.getsAt[nCommit]
+		if fromApplied {
+			nArrive = 0
+		}
+		r.Add("b_items_interrupted_in_blocktransactions_phase_only", 1)
+	}
 	// 2. crash after every commit of that run (the image becomes a new start state)
-	for k := 1; k < n; k++ {
-		sh.add(o.d.Image(k), st.depth+1, fmt.Sprintf("%s crash-after-commit %d/%d", tr, k, n), taint)
+	for k := 1; k < n && k <= nCommit; k++ {
+		img := o.d.Image(k)
+		sh.add(img, st.depth+1, fmt.Sprintf("%s crash-after-commit %d/%d", tr, k, n), taint, floorAfter(st.floor, start, fromApplied, img, false))
 		r.Add("b_crash_images", 1)
 	}
 	// 3. cancellation at every commit and at every first read of an ingest range; 4. failed commit
 	var ins []interrupt
 	ins = append(ins, interrupt{inCancelStart, 0})
 	full := failInj || st.depth == 0 // quick tier: failed commits and cancel-at-read only on the first process start
-	for k := 1; k <= n; k++ {
+	for k := 1; k <= nCommit; k++ {
 		ins = append(ins, interrupt{inCancelCommit, k})
 		if full {
 			ins = append(ins, interrupt{inFail, k})
 		}
 	}
-	for k := 1; k <= o.arrivals && full; k++ {
+	for k := 1; k <= nArrive && full; k++ {
 		ins = append(ins, interrupt{inCancelGate, k})
 	}
 	// 5. a transient read fault at every point read of the first process start (the run dies with an error; whatever
 	// its workers had queued may or may not have been committed on the way out)
-	for k := 1; k <= o.d.Gets() && st.depth == 0 && pm == [4]int{0, 1, 2, 3}; k++ {
+	for k := 1; k <= nGets && st.depth == 0 && pm == [4]int{0, 1, 2, 3}; k++ {
 		ins = append(ins, interrupt{inFailRead, k})
 	}
 	ev.Par(len(ins), 4, func(ii int) {
@@ -748,14 +843,23 @@ afterFinal:
 				r.Violate("b/interrupted-run-fails: "+errClass(nil, oi.runErr), map[string]any{"shape": sp.Name, "trace": tri, "err": oi.runErr.Error()})
 			}
 		}
+		// a run that ended in a graceful cancellation after it was seen to visit every block from its start range to the
+		// tip has finished its pass: its last image has to hold what it ingested (visit_test.go)
+		graceful := (in.Kind == inCancelCommit || in.Kind == inCancelGate) && errors.Is(oi.runErr, context.Canceled)
+		passFinished := graceful && !fromApplied && oi.ingestedAll(start, len(c.shape))
+		if passFinished {
+			r.Add("b_cancelled_runs_with_finished_pass", 1)
+		}
 		// every image that run went through is a possible durable state as well
 		for k := 1; k <= oi.d.Commits(); k++ {
 			// the last image is where the interrupted run gracefully ended; an earlier one means the process also died there
+			last := k == oi.d.Commits()
 			lbl := fmt.Sprintf("%s [image %d/%d]", tri, k, oi.d.Commits())
-			if k < oi.d.Commits() {
+			if !last {
 				lbl = fmt.Sprintf("%s then crash-after-commit %d/%d", tri, k, oi.d.Commits())
 			}
-			sh.add(oi.d.Image(k), st.depth+1, lbl, taint)
+			img := oi.d.Image(k)
+			sh.add(img, st.depth+1, lbl, taint, floorAfter(st.floor, start, fromApplied, img, last && passFinished))
 		}
 	})
 }
